@@ -774,7 +774,8 @@ class Doer(tyming.Tymee):
         except GeneratorExit:  # close context, forced exit due to .close on generator
             self.cease()
 
-        except Exception as ex:  # abort context, forced exit due to uncaught exception
+        except BaseException as ex:  # abort context, forced exit due to uncaught
+            # exception including KeyboardInterrupt raised inside recur
             self.abort(ex=ex)
             raise
 
@@ -1207,7 +1208,8 @@ class DoDoer(Doer):
         except GeneratorExit:  # cease context, forced exit due to generator.close()
             self.cease()
 
-        except Exception as ex:  # abort context, forced exit due to uncaught exception
+        except BaseException as ex:  # abort context, forced exit due to uncaught
+            # exception including KeyboardInterrupt raised inside recur
             self.abort(ex=ex)
             raise
 
